@@ -563,7 +563,7 @@ func (c *UConn) clientHandshake(ctx context.Context) (err error) {
 		return unexpectedMessageError(serverHello, msg)
 	}
 
-	if err := c.pickTLSVersion(serverHello); err != nil {
+	if err := c.utlsPickTLSVersion(hello, serverHello); err != nil {
 		return err
 	}
 
@@ -582,10 +582,14 @@ func (c *UConn) clientHandshake(ctx context.Context) (err error) {
 	// [uTLS] What counts is the highest version this ClientHello advertised, not
 	// what the Config says now: the Config may be shared with other connections,
 	// and uTLS writes each spec's version range into it.
+	var helloMaxVers uint16
 	for _, v := range hello.supportedVersions {
-		if !isGREASEUint16(v) && v > maxVers && v <= VersionTLS13 {
-			maxVers = v
+		if !isGREASEUint16(v) && v > helloMaxVers && v <= VersionTLS13 {
+			helloMaxVers = v
 		}
+	}
+	if helloMaxVers != 0 {
+		maxVers = helloMaxVers
 	}
 	tls12Downgrade := string(serverHello.random[24:]) == downgradeCanaryTLS12
 	tls11Downgrade := string(serverHello.random[24:]) == downgradeCanaryTLS11
@@ -655,4 +659,27 @@ func (c *UConn) echTranscriptMsg(outer *clientHelloMsg, echCtx *echClientContext
 	}
 
 	return nil
+}
+
+// utlsPickTLSVersion is pickTLSVersion for a uTLS client. uTLS writes each spec's
+// version range into the Config (SetTLSVers), and a Config may be shared by several
+// connections: by the time the ServerHello arrives, the range in the Config may be
+// that of another connection's spec. A version this connection's ClientHello listed
+// in supported_versions, and which uTLS implements, is therefore accepted even if
+// the Config does not allow it any more.
+func (c *Conn) utlsPickTLSVersion(hello *clientHelloMsg, serverHello *serverHelloMsg) error {
+	peerVersion := serverHello.vers
+	if serverHello.supportedVersion != 0 {
+		peerVersion = serverHello.supportedVersion
+	}
+	if _, ok := c.config.mutualVersion(roleClient, []uint16{peerVersion}); !ok &&
+		peerVersion >= VersionTLS10 && peerVersion <= VersionTLS13 &&
+		slices.Contains(hello.supportedVersions, peerVersion) {
+		c.vers = peerVersion
+		c.haveVers = true
+		c.in.version = peerVersion
+		c.out.version = peerVersion
+		return nil
+	}
+	return c.pickTLSVersion(serverHello)
 }
